@@ -4,7 +4,7 @@ use crate::rcgen::{self, SITES_RC};
 use crate::rcworld;
 use crate::runner::{CheckDef, Family, Tier};
 use crate::templates;
-use crate::{pure, seq};
+use crate::{ebrworld, pure, seq};
 
 const ASSUME_SC: &str = "only sequentially consistent interleavings at the granularity of one atomic access per step are explored";
 const ASSUME_HOOKS: &str = "circ is built with --cfg circ_verif (yield points, events, read-only shims) and without debug assertions";
@@ -230,6 +230,56 @@ pub fn all() -> Vec<CheckDef> {
             rule: "pools of 2..6 Rc (and their Snapshots) drawn from null, tagged null, the same object under different tags and write epochs, distinct objects with equal or different contents; ==, cmp, partial_cmp, hash compared with Option<&T> of the referent, ptr_eq with identity+tag, and the Eq/Ord laws over all pairs and triples. Non-trivial = the pool contains two distinct objects with equal contents, the same object under different tags/epoch bits, or null next to non-null; distinct = distinct hash of the case",
             timeout_s: t60,
             assumptions: vec![ASSUME_HOOKS],
+            shards: s16,
+        },
+        CheckDef {
+            id: "C13",
+            families: vec![
+                Family { name: "ebr-free", strategy: |_| ebrworld::free(ebrworld::EW_DEFAULT, 4, 24, 10), cases: |t| t.pick(40_000, 400_000) },
+                Family { name: "ebr-exit", strategy: |_| ebrworld::free(ebrworld::EW_EXIT, 3, 16, 8), cases: |t| t.pick(10_000, 100_000) },
+                Family { name: "private-collector", strategy: |_| ebrworld::private(ebrworld::EW_DEFAULT, 50), cases: |t| t.pick(10_000, 100_000) },
+            ],
+            exec: ebrworld::exec,
+            rule: "2-4 scheduled threads running generated pin / nested pin / drop / reactivate(_after) / defer (closures of 4..200 bytes, alignment 4..64) / flush / collection-round / exit programs on the default collector, with preemption at the epoch and raw-pointer atomics inside pin, try_advance, push_bag, collect, the bag queue and the participant list; plus sequential programs on a private collector with three participants. Oracle: a deferred function never runs while a critical section that was active at its deferral is still active. Non-trivial = at least one function was deferred while another participant's critical section was active and was executed within the case; distinct = distinct hash of the case",
+            timeout_s: t60,
+            assumptions: vec![ASSUME_SC, ASSUME_HOOKS],
+            shards: s16,
+        },
+        CheckDef {
+            id: "C14",
+            families: vec![
+                Family { name: "ebr-advance", strategy: |_| ebrworld::free(ebrworld::EW_ADVANCE, 4, 30, 12), cases: |t| t.pick(40_000, 400_000) },
+                Family { name: "ebr-free", strategy: |_| ebrworld::free(ebrworld::EW_DEFAULT, 4, 24, 10), cases: |t| t.pick(16_000, 160_000) },
+            ],
+            exec: ebrworld::exec,
+            rule: "the same worlds as C13, biased to many short critical sections and re-pins; at every yield point (at most one atomic access apart) the global epoch must be equal to or one more than the previous sample, and every participant inside a checked interval (from the return of its outermost pin/reactivate until it shows unpinned after the matching drop was invoked, i.e. including unpin's collection loop and all internal re-pins) must be within one epoch of the global epoch. Non-trivial = the epoch advanced at least twice while some thread was inside a checked interval and that thread re-pinned at least once inside one; distinct = distinct hash of the case",
+            timeout_s: t60,
+            assumptions: vec![ASSUME_SC, ASSUME_HOOKS],
+            shards: s16,
+        },
+        CheckDef {
+            id: "C15",
+            families: vec![
+                Family { name: "ebr-exit", strategy: |_| ebrworld::free(ebrworld::EW_EXIT, 4, 16, 8), cases: |t| t.pick(30_000, 300_000) },
+                Family { name: "ebr-free", strategy: |_| ebrworld::free(ebrworld::EW_DEFAULT, 4, 24, 10), cases: |t| t.pick(16_000, 160_000) },
+                Family { name: "private-collector", strategy: |_| ebrworld::private(ebrworld::EW_EXIT, 50), cases: |t| t.pick(16_000, 160_000) },
+            ],
+            exec: ebrworld::exec,
+            rule: "the same worlds as C13, biased to deferral bursts (bag fill levels 0..130) and threads that exit with garbage pending at generated points; closures carry a checksum pattern and check their own alignment. Oracle: every deferred function runs at most once at any time, with its captured data intact, and all of them have run within 64 + deferred collection rounds by the surviving thread after the others exited (for private collectors: once every handle and the collector are dropped). Non-trivial = at least one function was executed by another thread after the deferring thread had exited (private: executed at collector drop); distinct = distinct hash of the case",
+            timeout_s: t60,
+            assumptions: vec![ASSUME_SC, ASSUME_HOOKS, "eventually = within 64 + (number of deferred functions) collection rounds of the surviving thread"],
+            shards: s16,
+        },
+        CheckDef {
+            id: "C16",
+            families: vec![
+                Family { name: "ebr-guards", strategy: |_| ebrworld::free(ebrworld::EW_GUARDS, 3, 30, 6), cases: |t| t.pick(40_000, 400_000) },
+                Family { name: "private-collector", strategy: |_| ebrworld::private(ebrworld::EW_GUARDS, 60), cases: |t| t.pick(16_000, 160_000) },
+            ],
+            exec: ebrworld::exec,
+            rule: "programs over <=3 nested guards per thread created, dropped in any order, reactivated, reactivate_after'ed with collection rounds inside the closure and with panicking closures, the same API used from inside deferred functions during collection, next to peers that advance the epoch. Model: pinned <=> live guards > 0 and guard count equal, compared with the participant's real state after every op; reactivate on a non-sole guard leaves the announced epoch unchanged, on the sole guard re-pins at the current epoch, the thread is unpinned inside the closure only then, and is pinned again afterwards also on panic. Non-trivial = nesting depth >= 2 and at least one reactivation; distinct = distinct hash of the case",
+            timeout_s: t60,
+            assumptions: vec![ASSUME_SC, ASSUME_HOOKS],
             shards: s16,
         },
     ]
